@@ -102,6 +102,16 @@ impl ArgMatcher {
         self.matches.args.remove(arg).is_some()
     }
 
+    /// A removed argument no longer counts as a present member of `group`
+    pub(crate) fn remove_from_group(&mut self, group: &Id, arg: &Id) {
+        if let Some(ma) = self.matches.args.get_mut(group) {
+            ma.remove_raw_val(std::ffi::OsStr::new(arg.as_str()));
+            if ma.num_vals() == 0 {
+                self.matches.args.remove(group);
+            }
+        }
+    }
+
     pub(crate) fn contains(&self, arg: &Id) -> bool {
         self.matches.args.contains_key(arg)
     }
